@@ -1082,14 +1082,29 @@ def emit(table):
     L += ["", "end Amgcl.Generated", ""]
     data = "\n".join(L)
     thm = "\n".join([
-        "-- GENERATED by tools/capi_extract.py — do not edit.  The obligation of property C20 over the regenerated table.",
-        "import Amgcl.Generated.CApiTableData", "namespace Amgcl.Generated", "open Amgcl.CApi", "",
+        "-- GENERATED by tools/capi_extract.py — do not edit.  The obligations of property C20 over the regenerated table.",
+        "import Amgcl.Generated.CApiTableData", "import Amgcl.Properties.C20b", "namespace Amgcl.Generated", "open Amgcl Amgcl.CApi", "",
         "/-- the table regenerated from lib/amgcl.cpp + lib/amgcl.h satisfies `Table.Consistent` (Amgcl/Model/CApiTable.lean):",
         "every entry point is declared as defined, named after what it does, casts its handles to the class of its family,",
         "builds THE crs tuple with the index base of its name, hands rhs / x over as `[p, p + n)`, fills `conv_info` from the",
-        "C++ result, every `_f` twin reaches the same C++ call, every family has a create and a destroy.  The generic",
-        "theorems of Amgcl/Properties/C20b.lean apply to it. -/",
+        "C++ result, every `_f` twin reaches the same C++ call, every family has a create and a destroy. -/",
         "theorem capi_table_consistent : capiTable.Consistent := by decide +kernel", "",
+        "/-! the generic theorems of Amgcl/Properties/C20b.lean, instantiated on the regenerated table -/", "",
+        "/-- every `_f` entry point of lib/amgcl.cpp on `(ptr+1, col+1, val)` hands its C++ callee what its twin hands over on",
+        "`(ptr, col, val)`: same callee, same argument roles, same rows read through the tuple, same failures — for all arrays -/",
+        "theorem capi_fortran_forwards_same {K : Type} (e : Entry) (he : e ∈ capiTable.entries) (hf : e.fortran = true) :",
+        "    ∃ e0 ∈ capiTable.entries, e0.family = e.family ∧ e0.verb = e.verb ∧ e0.fortran = false",
+        "      ∧ ∀ (n : Nat) (ptr col : Array Int) (val : Array K),",
+        "          capiTable.forwarded e n (ptr.map (· + 1)) (col.map (· + 1)) val = capiTable.forwarded e0 n ptr col val :=",
+        "  C20b.table_fortran_forwards_same capiTable capi_table_consistent e he hf", "",
+        "/-- every tuple built in lib/amgcl.cpp denotes `mkView` with the index base of the entry point's name -/",
+        "theorem capi_views_are_mkView {K : Type} (e : Entry) (he : e ∈ capiTable.entries) (A : TupleSpec)",
+        "    (hA : e.body.tuple? = some A) (n : Nat) (ptr col : Array Int) (val : Array K) :",
+        "    A.wellShaped = true ∧ A.view n ptr col val = mkView e.base n ptr col val :=",
+        "  C20b.table_view_is_mkView capiTable capi_table_consistent e he A hA n ptr col val", "",
+        "/-- the handle footprint of every entry point of lib/amgcl.cpp is the one its name declares -/",
+        "theorem capi_calls_as_declared (c : ApiCall) : capiTable.call c = capiTable.declared c :=",
+        "  C20b.table_call_eq_declared capiTable capi_table_consistent c", "",
         "end Amgcl.Generated", ""])
     return data, thm
 
